@@ -23,6 +23,7 @@ from . import common as C
 
 PID = "C14"
 META = {
+    "ready": True,
     "category": "proof",
     "technique": "Lean 4 proofs over an executable model of the module system (name mangling, require-modifier "
                  "flattening, compiled-module table + metadata roll-back, depth-first instantiation) by "
